@@ -41,7 +41,8 @@ def make_copy():
 
 def run_check(prop, repo_dir, tier, only=None, seed="1"):
     env = dict(os.environ, VERIF_REPO=repo_dir, VERIF_SEED=seed, PYTHONHASHSEED="0",
-               PYTHONDONTWRITEBYTECODE="1", VERIF_REPLAY_OUT=os.path.join(repo_dir, "replays_out"))
+               PYTHONDONTWRITEBYTECODE="1", VERIF_REPLAY_OUT=os.path.join(repo_dir, "replays_out"),
+               VERIF_EVIDENCE_OUT=os.path.join(repo_dir, "evidence_out"))
     cmd = ["/venv/bin/python", "-m", "vp.run", prop, "--tier", tier]
     if only:
         cmd += ["--only", only]
